@@ -416,10 +416,8 @@ func (f *Frame) deferStmt(st *State, s *ast.DeferStmt) {
 			d.args = append(d.args, f.expr(st, a))
 		}
 		// receiver evaluated now as well
-		if sel, ok := s.Call.Fun.(*ast.SelectorExpr); ok {
-			if selInfo := f.info.Selections[sel]; selInfo != nil && selInfo.Kind() == types.MethodVal {
-				d.recv = f.expr(st, sel.X)
-			}
+		if cal := f.resolve(st, s.Call.Fun); cal.fn != nil && cal.recvX != nil {
+			d.recv, _ = f.evalRecv(st, cal)
 		}
 	}
 	st.defers = append(append([]*deferred{}, st.defers...), d)
